@@ -1,7 +1,11 @@
 //! Conformance drivers (pv-math). Sub-commands are added per property.
+mod fixed;
+
 fn main() {
     let args = pv_core::Args::parse();
     match args.cmd.as_str() {
+        "fixed-replay" => fixed::replay(&args),
+        "fixed-trace" => fixed::trace(&args),
         other => pv_core::die(&format!("unknown sub-command {other}")),
     }
 }
